@@ -170,8 +170,9 @@ def run(ck, replay, cfgs=None, verbose=False):
                     s = vf.tlc("Unpack", cfg, workers=4, collect=False, timeout=300)
                     if s.violated != inv:
                         raise vf.NotAVerdict("%s: sanity invariant %s not violated (vacuous model)" % (cfg, inv))
-                r = vf.require_ok(vf.tlc("Unpack", "Unpack-ideal.cfg", collect=False, timeout=900), "Unpack-ideal.cfg")
-                ck.add_tlc("Unpack-ideal.cfg", r, consts_of("Unpack-ideal.cfg"))
+                icfg = "Unpack-ideal.cfg" if ck.thorough() else "Unpack-ideal-quick.cfg"
+                r = vf.require_ok(vf.tlc("Unpack", icfg, collect=False, timeout=900), icfg)
+                ck.add_tlc(icfg, r, consts_of(icfg))
             for cfg in (cfgs or (THOROUGH if ck.thorough() else QUICK)):
                 cf = os.path.join(work, cfg + ".ndjson")
                 r = vf.require_ok(vf.tlc("Unpack", cfg, timeout=3000, case_file=cf, heap="8g"), cfg)
